@@ -405,3 +405,9 @@ func (l *countingLeaf) VirtualSetAttributes(ctx context.Context, in *virtual.Att
 	park(ctx, parkIO)
 	return l.LinkableLeaf.VirtualSetAttributes(ctx, in, requested, out)
 }
+
+func (f *memFile) Len() (int64, error) {
+	f.mu.Lock()
+	defer f.mu.Unlock()
+	return int64(len(f.data)), nil
+}
